@@ -1,4 +1,5 @@
 import EupsModel.Lemmas.ShellEmit
+import EupsModel.Lemmas.ShellFn
 /-! C05 — emitted shell commands reproduce the computed environment when sourced.  Property theorems only
 (model: `Model/ShellEmit.lean`, helper lemmas: `Lemmas/ShellEmit.lean`).
 
@@ -11,13 +12,15 @@ namespace EupsModel.C05
 open EupsModel EupsModel.ShellEmit
 
 /-- **C05, full clause.**  For every caller's environment `old` and every computed environment `new` — names
-identifiers, the values eups has to write drawn from the claimed alphabet, none of the four `EUPS_*` variables the
-code refuses to unset disappearing — the shell that evaluates the emitted text ends with exactly `new`.  Nothing is
-assumed about the values of `old` or about unchanged values of `new`. -/
+identifiers, the values eups has to write `Writable` (drawn from the claimed alphabet, or of the class eups
+single-quotes: any text without a single quote that holds a blank or one of `< > | & ; ( )`, whatever else it holds —
+`$NAME`, `${NAME}`, backquotes, backslashes, double quotes), none of the four `EUPS_*` variables the code refuses to
+unset disappearing — the shell that evaluates the emitted text ends with exactly `new`.  Nothing is assumed about the
+values of `old` or about unchanged values of `new`. -/
 theorem C05_roundtrip (old new : Env)
     (hold : ∀ p ∈ old, isIdent p.1 = true) (hnew : ∀ p ∈ new, isIdent p.1 = true)
     (hdict : (new.map (·.1)).Nodup)
-    (halpha : ∀ p ∈ new, old.get p.1 ≠ some p.2 → InAlphabet p.2)
+    (halpha : ∀ p ∈ new, old.get p.1 ≠ some p.2 → Writable p.2)
     (hprot : ∀ k, isProtected k = true → old.has k = true → new.has k = true) :
     ∃ e, shEval old (emitText (OldEnv.ofEnv old) new) = some e ∧ SameEnv e new := by
   have := roundtrip_tracks (OldEnv.ofEnv old) old new (tracks_ofEnv old) hold hnew hdict
@@ -29,7 +32,7 @@ theorem C05_roundtrip (old new : Env)
 theorem C05_roundtrip_printed (old new : Env)
     (hold : ∀ p ∈ old, isIdent p.1 = true) (hnew : ∀ p ∈ new, isIdent p.1 = true)
     (hdict : (new.map (·.1)).Nodup)
-    (halpha : ∀ p ∈ new, old.get p.1 ≠ some p.2 → InAlphabet p.2)
+    (halpha : ∀ p ∈ new, old.get p.1 ≠ some p.2 → Writable p.2)
     (hprot : ∀ k, isProtected k = true → old.has k = true → new.has k = true) :
     ∃ e, shEval old (emitText (OldEnv.ofEnv old) new ++ [10]) = some e ∧ SameEnv e new := by
   have := roundtrip_tracks (OldEnv.ofEnv old) old new (tracks_ofEnv old) hold hnew hdict
@@ -51,20 +54,58 @@ example :
               (Str.ofString "E", []), (Str.ofString "X", Str.ofString "a;b\nc")] := by
   decide
 
+set_option maxRecDepth 20000 in
+/-- Non-vacuity for the class of values eups single-quotes (`Writable`'s second disjunct): values that hold, next to
+a blank or a parenthesis, `${NAME}`, `$NAME`, a backquote, a backslash and a double quote — all literal inside the
+single quotes. -/
+example :
+    let v1 := Str.ofString "-L${PRODUCT_DIR}/lib -Wl,-rpath,$ORIGIN/../lib"
+    let v2 := Str.ofString "(tool) $ "
+    let v3 := Str.ofString "say \"hi\" > `tty` \\n"
+    Writable v1 ∧ Writable v2 ∧ Writable v3 ∧ ¬ InAlphabet v1 ∧
+      emitText (OldEnv.ofEnv []) [(Str.ofString "LDFLAGS", v1), (Str.ofString "P", v2), (Str.ofString "Q", v3)] =
+        Str.ofString "export LDFLAGS='-L${PRODUCT_DIR}/lib -Wl,-rpath,$ORIGIN/../lib';\nexport P='(tool) $ ';\nexport Q='say \"hi\" > `tty` \\n'" ∧
+      shEval [] (emitText (OldEnv.ofEnv []) [(Str.ofString "LDFLAGS", v1), (Str.ofString "P", v2), (Str.ofString "Q", v3)]) =
+        some [(Str.ofString "LDFLAGS", v1), (Str.ofString "P", v2), (Str.ofString "Q", v3)] := by
+  unfold Writable InAlphabet
+  decide
+
+/-- a value with `$` that eups does *not* quote (no blank, no metacharacter) is outside the claim, and so is any value
+holding a single quote -/
+example : ¬ Writable (Str.ofString "$ORIGIN/../lib") ∧ ¬ Writable (Str.ofString "it's a $x") := by
+  unfold Writable InAlphabet
+  decide
+
 /-- **`--force`, repaired tree (D9).**  After any sequence of table actions (`envSet`, `envPrepend`/`envAppend`,
-`envUnset`, each in its own direction, with or without `--force`) started from the caller's environment `base`,
-the emitted text evaluated *from `base`* yields the computed environment. -/
+`envUnset`, `addAlias`, each in its own direction, with or without `--force`) interleaved with `pushStack("env")` /
+`popStack("env")` / `dropStack("env")` in any way (optional and nested setups, failed ones rolled back — what `--force`
+made `oldEnviron` forget stays forgotten) started from the caller's environment `base`, the emitted text evaluated
+*from `base`* yields the computed environment. -/
 theorem C05_force_roundtrip (acts : List Act) (base : Env)
     (hbase : ∀ p ∈ base, isIdent p.1 = true)
     (hnew : ∀ p ∈ (runActs false acts base).cur, isIdent p.1 = true)
     (hdict : ((runActs false acts base).cur.map (·.1)).Nodup)
     (halpha : ∀ p ∈ (runActs false acts base).cur,
-      (runActs false acts base).old.lookup p.1 ≠ some (some p.2) → InAlphabet p.2)
+      (runActs false acts base).old.lookup p.1 ≠ some (some p.2) → Writable p.2)
     (hprot : ∀ k, isProtected k = true → base.has k = true → (runActs false acts base).cur.has k = true) :
     ∃ e, shEval base (emitText (runActs false acts base).old (runActs false acts base).cur) = some e ∧
       SameEnv e (runActs false acts base).cur := by
   have := roundtrip_tracks _ base _ (tracks_runActs acts base) hbase hnew hdict halpha hprot false
   simpa using this
+
+/-- Non-vacuity with a rolled-back optional setup under `--force`: `B` set; then, inside push … pop, `A` changed and
+`PATH` prepended — thrown away; the text exports `B`, re-exports the forgotten `A` and `PATH` with their old values. -/
+example :
+    let base : Env := [(Str.ofString "A", Str.ofString "1"), (Str.ofString "PATH", Str.ofString "/bin")]
+    let s := runActs false [.envSet true true (Str.ofString "B") (Str.ofString "b b"), .push,
+                            .envSet true true (Str.ofString "A") (Str.ofString "2"),
+                            .path true (Str.ofString "PATH") (Str.ofString "/opt/my prod/bin:/bin"), .pop] base
+    s.cur = base ++ [(Str.ofString "B", Str.ofString "b b")] ∧
+      emitText s.old s.cur = Str.ofString "export A=1;
+export PATH=/bin;
+export B='b b'" ∧
+      shEval base (emitText s.old s.cur) = some (base ++ [(Str.ofString "B", Str.ofString "b b")]) := by
+  decide
 
 /-- Non-vacuity and the repaired behaviour on the D9 input: `unsetup --force` of a product that `envSet`s `A`. -/
 example :
@@ -120,7 +161,7 @@ exactly `new`, even when an alias shares its name with a variable. -/
 theorem C05_roundtrip_alias_removal (old new : Env) (oldAliases : List (Str × Option Str))
     (hold : ∀ p ∈ old, isIdent p.1 = true) (hnew : ∀ p ∈ new, isIdent p.1 = true)
     (hdict : (new.map (·.1)).Nodup)
-    (halpha : ∀ p ∈ new, old.get p.1 ≠ some p.2 → InAlphabet p.2)
+    (halpha : ∀ p ∈ new, old.get p.1 ≠ some p.2 → Writable p.2)
     (hprot : ∀ k, isProtected k = true → old.has k = true → new.has k = true)
     (hal : ∀ p ∈ oldAliases, isIdent p.1 = true) :
     ∃ cmds e, emit {} (OldEnv.ofEnv old) new [] oldAliases = some cmds ∧
@@ -160,7 +201,7 @@ three variables the caller had is unset, whether `Eups.setup` kept, changed or h
 theorem C05_roundtrip_unsetup_eups (old new : Env)
     (hold : ∀ p ∈ old, isIdent p.1 = true) (hnew : ∀ p ∈ finalEnv unsetupEups new, isIdent p.1 = true)
     (hdict : ((finalEnv unsetupEups new).map (·.1)).Nodup)
-    (halpha : ∀ p ∈ finalEnv unsetupEups new, old.get p.1 ≠ some p.2 → InAlphabet p.2) :
+    (halpha : ∀ p ∈ finalEnv unsetupEups new, old.get p.1 ≠ some p.2 → Writable p.2) :
     ∃ cmds e, emit unsetupEups (OldEnv.ofEnv old) new [] [] = some cmds ∧
       shEval old (join cmds) = some e ∧ SameEnv e (finalEnv unsetupEups new) := by
   have hgood := emitVarsOn_good unsetupEups (OldEnv.ofEnv old) old (finalEnv unsetupEups new) (tracks_ofEnv old)
@@ -251,6 +292,352 @@ example :
                       (Str.ofString "EUPS_SHELLTOOLS_DIR", [47]), (Str.ofString "EUPS_PKGROOT", [47])]
     emit {} (OldEnv.ofEnv old) [(Str.ofString "EUPS_PATH", [47])] [] [] =
       some [Str.ofString "unset EUPS_PATH_SAVED", Str.ofString "unset EUPS_SHELLTOOLS_DIR"] := by
+  decide
+
+/-! ## the complete text: variables *and* shell functions (aliases), exit status
+
+`shEvalF env funcs text` is the second layer of the shell model: besides the exported environment it tracks the
+shell's functions (name → canonical text of the parsed body), what `echo` wrote, and the exit status of the last
+command.  `canon v` is the canonical text of the function that the alias value `v` defines (its words joined by
+single blanks). -/
+
+/-- **C05 with aliases, full clause.**  For every caller's environment `old` (a dictionary), every function table
+`funcs0` the caller's shell may hold, every computed environment `new` and every pair (`aliases`, `oldAliases`) —
+alias names usable as function names, alias values plain command lines — the shell that evaluates the *complete*
+text printed by `setup` (exports, unsets, a function definition `NAME() { VALUE ; }` per new alias, `unset -f NAME`
+per removed alias, joined by `";\n"`) ends with exactly `new` as its environment, with every alias defined as a
+function holding its value, every removed alias gone, every other function untouched, nothing written to the
+terminal and exit status 0.  (`htrack`: an alias that eups skips because `oldAliases` already holds its value is
+assumed to exist in the shell with that value — this is what "already defined" means.) -/
+theorem C05_roundtrip_aliases (old new funcs0 : Env) (aliases : List (Str × Str)) (oldAliases : List (Str × Option Str))
+    (nl : Bool)
+    (hold : ∀ p ∈ old, isIdent p.1 = true) (holdnd : (old.map (·.1)).Nodup)
+    (hnew : ∀ p ∈ new, isIdent p.1 = true) (hdict : (new.map (·.1)).Nodup)
+    (halpha : ∀ p ∈ new, old.get p.1 ≠ some p.2 → Writable p.2)
+    (hprot : ∀ k, isProtected k = true → old.has k = true → new.has k = true)
+    (hal : ∀ p ∈ aliases, fnNameOk p.1 = true ∧ SimpleBody p.2) (haldict : (aliases.map (·.1)).Nodup)
+    (hoal : ∀ p ∈ oldAliases, isIdent p.1 = true)
+    (htrack : ∀ p ∈ aliases, defCmd? oldAliases p = none → funcs0.get p.1 = some (canon p.2)) :
+    ∃ cmds r, emit {} (OldEnv.ofEnv old) new aliases oldAliases = some cmds ∧
+      shEvalF old funcs0 (join cmds ++ (if nl then [10] else [])) = some r ∧
+      SameEnv r.sh.env new ∧
+      (∀ n, r.funcs.get n = match Env.get aliases n with
+                            | some v => some (canon v)
+                            | none => if oldAliases.any (·.1 == n) then none else funcs0.get n) ∧
+      r.out = [] ∧ r.status = 0 := by
+  have hcm : emitCmds {} (OldEnv.ofEnv old) new aliases oldAliases =
+      emitVarsOn {} (OldEnv.ofEnv old) new ++ emitAliases aliases oldAliases := by
+    simp [emitCmds, emitVars, finalEnv]
+  have halpha' : ∀ p ∈ new, (OldEnv.ofEnv old).lookup p.1 ≠ some (some p.2) → Writable p.2 :=
+    fun p hp hl => halpha p hp (by intro hg; apply hl; rw [lookup_ofEnv, hg]; rfl)
+  have hgs : GoodSeq old funcs0 (emitCmds {} (OldEnv.ofEnv old) new aliases oldAliases) := by
+    rw [hcm, goodSeq_append]
+    exact ⟨goodSeq_vars _ old new funcs0 (tracks_ofEnv old) hold holdnd hnew hdict halpha',
+      goodSeq_static _ _ _ (aliasCmds_static aliases oldAliases hal hoal)⟩
+  have hev := shEvalF_join (emitCmds {} (OldEnv.ofEnv old) new aliases oldAliases) nl old funcs0 [] 0 hgs
+  refine ⟨(emitCmds {} (OldEnv.ofEnv old) new aliases oldAliases).map Cmd.text, _, ?_, hev, ?_, ?_, rfl, ?_⟩
+  · unfold emit; exact mapM_render_default _
+  · show SameEnv (applyAll _ old) new
+    rw [hcm, applyAll_append, applyAll_aliasCmds]
+    exact emitVars_apply (OldEnv.ofEnv old) old new (tracks_ofEnv old) hdict hprot
+  · intro n
+    show (applyAllF _ funcs0).get n = _
+    rw [hcm, applyAllF_append, applyAllF_vars]
+    exact aliases_spec aliases oldAliases funcs0 haldict htrack n
+  · show (if _ then 0 else 0) = 0
+    split <;> rfl
+
+/-- Non-vacuity: a changed path with a blank, a removed variable, a new alias `ll`, a removed alias `gone` that is
+also the name of a variable that stays, a function `other` of the caller's shell that eups knows nothing about. -/
+example :
+    let old : Env := [(Str.ofString "PATH", Str.ofString "/bin"), (Str.ofString "GONE", Str.ofString "1"),
+                      (Str.ofString "gone", Str.ofString "v")]
+    let new : Env := [(Str.ofString "PATH", Str.ofString "/my prod/bin:/bin"), (Str.ofString "gone", Str.ofString "v")]
+    let f0 : Env := [(Str.ofString "gone", Str.ofString "true"), (Str.ofString "other", Str.ofString "ls")]
+    let text := Str.ofString "export PATH='/my prod/bin:/bin';\nunset GONE;\nll() { ls  -l ; };\nunset -f gone\n"
+    emit {} (OldEnv.ofEnv old) new [(Str.ofString "ll", Str.ofString "ls  -l")] [(Str.ofString "gone", none)] =
+        some [Str.ofString "export PATH='/my prod/bin:/bin'", Str.ofString "unset GONE", Str.ofString "ll() { ls  -l ; }",
+              Str.ofString "unset -f gone"] ∧
+      (shEvalF old f0 text).map (fun r => (r.sh.env, r.funcs, r.out, r.status)) =
+        some (new, [(Str.ofString "other", Str.ofString "ls"), (Str.ofString "ll", Str.ofString "ls -l")], [], 0) := by
+  decide
+
+/-- the fragment of function bodies is wider than the theorem's plain command lines: `"$@"`, `$@`, single-quoted
+words and several commands are read too (and compared with dash and bash on every run); a body that closes the
+brace early, an empty body, a reserved word in command position and a function called `export` are outside it -/
+example :
+    ((shEvalF [] [] (Str.ofString "gg() { git grep \"$@\" ; }; w() { echo $@ done; printf 'a  b' ; }")).map (·.funcs)) =
+        some [(Str.ofString "gg", Str.ofString "git grep \"$@\""), (Str.ofString "w", Str.ofString "echo $@ done; printf 'a  b'")] ∧
+      shEvalF [] [] (Str.ofString "ll() { ls } ; }") = none ∧ shEvalF [] [] (Str.ofString "ll() {  ; }") = none ∧
+      shEvalF [] [] (Str.ofString "ll() { if ; }") = none ∧ shEvalF [] [] (Str.ofString "export() { ls ; }") = none := by
+  decide
+
+/-- **A failed request.**  When `Eups.setup` fails, `app.setup` returns the single command `false`: the shell that
+evaluates it keeps its environment and its functions and reports failure to the caller (status 1). -/
+theorem C05_failure_reports_false (env funcs : Env) (nl : Bool) :
+    ∃ r, shEvalF env funcs (sFalse ++ (if nl then [10] else [])) = some r ∧
+      r.sh.env = env ∧ r.funcs = funcs ∧ r.out = [] ∧ r.status = 1 := by
+  have hfeed : feedF (startF env funcs) sFalse = some { startF env funcs with sh := mid env [] sFalse } := by
+    rw [feedF_plain sFalse (startF env funcs) rfl rfl rfl (by decide)]
+    have hf := feed_safe sFalse (clean env) rfl (by decide) (by decide)
+    simp only [startF]
+    rw [hf]
+    simp [mid, clean]
+  have hstep : stepF { startF env funcs with sh := mid env [] sFalse } 10 =
+      some { startF env funcs with status := 1 } := by
+    have h1 : (sFalse == sEcho) = false := by decide
+    have h2 : (sFalse == sUnset) = false := by decide
+    have h3 : (sFalse == sExport) = false := by decide
+    simp [stepF, startF, mid, endWord, h1, h2, stepChar, exec, h3, clean, fnEffect]
+  cases nl
+  · refine ⟨{ startF env funcs with status := 1 }, ?_, rfl, rfl, rfl, rfl⟩
+    simp only [shEvalF, Bool.false_eq_true, if_false, List.append_nil, hfeed, Option.bind_some]
+    simpa [finishF, mid, startF] using hstep
+  · refine ⟨{ startF env funcs with status := 1 }, ?_, rfl, rfl, rfl, rfl⟩
+    simp only [shEvalF, if_true, feedF_append, hfeed, Option.bind_some, feedF_cons, feedF_nil, hstep]
+    simp [finishF, stepF, startF, clean, endWord]
+
+/-- the status is the last command's: a failure in the middle is not what the caller sees, a failure at the end is -/
+example : (shEvalF [] [] (Str.ofString "false;\nexport A=1")).map (·.status) = some 0 ∧
+    (shEvalF [] [] (Str.ofString "export A=1;\nfalse\n")).map (fun r => (r.sh.env, r.status)) =
+      some ([(Str.ofString "A", Str.ofString "1")], 1) := by decide
+
+/-! ## `setup -n` -/
+
+/-- **`-n`: the printed text only prints.**  With `--noaction` every command is wrapped in `echo "…"`.  For every
+caller's environment, function table and computed environment (names identifiers, written values over the
+alphabet) the shell that evaluates the `-n` text keeps its environment and its functions, succeeds, and writes — one
+per line, in order — exactly the commands of the model's command list for these options (the `SETUP_…` variables
+hidden unless `-vv`). -/
+theorem C05_noaction_prints (o : Opts) (ho : o.noaction = true) (hsh : o.shell = .sh) (old new funcs0 : Env) (nl : Bool)
+    (hold : ∀ p ∈ old, isIdent p.1 = true) (hnew : ∀ p ∈ finalEnv o new, isIdent p.1 = true)
+    (halpha : ∀ p ∈ finalEnv o new, old.get p.1 ≠ some p.2 → InAlphabet p.2) :
+    ∃ cmds r, emit o (OldEnv.ofEnv old) new [] [] = some cmds ∧
+      shEvalF old funcs0 (join cmds ++ (if nl then [10] else [])) = some r ∧
+      r.sh.env = old ∧ r.funcs = funcs0 ∧ r.status = 0 ∧
+      r.out = (emitVars o (OldEnv.ofEnv old) new).map Cmd.text := by
+  have hgood := emitVarsOn_goodA o (OldEnv.ofEnv old) old (finalEnv o new) (tracks_ofEnv old) hold hnew
+    (fun p hp hl => halpha p hp (by intro hg; apply hl; rw [lookup_ofEnv, hg]; rfl))
+  have hcm : emitCmds o (OldEnv.ofEnv old) new [] [] = emitVars o (OldEnv.ofEnv old) new := by
+    simp [emitCmds, emitAliases]
+  have hrender : ∀ l : List Cmd, (∀ c ∈ l, c.GoodA) → l.mapM (render o) = some (l.map fun c => echoText c.text) := by
+    intro l
+    induction l with
+    | nil => intro _; rfl
+    | cons c r ih =>
+      intro hg
+      have hc : render o c = some (echoText c.text) := by
+        have := hg c (by simp)
+        cases c <;> simp_all [render, echoWrap, echoText, Cmd.text, Cmd.GoodA]
+      simp [List.mapM_cons, hc, ih (fun d hd => hg d (by simp [hd]))]
+  have hev := shEvalF_join_echo ((emitVars o (OldEnv.ofEnv old) new).map Cmd.text) nl old funcs0 [] 0
+    (by
+      intro t ht
+      obtain ⟨c, hc, rfl⟩ := List.mem_map.mp ht
+      exact good_text_echoable c (hgood c hc))
+  refine ⟨(emitVars o (OldEnv.ofEnv old) new).map fun c => echoText c.text,
+    cleanF old funcs0 ([] ++ (emitVars o (OldEnv.ofEnv old) new).map Cmd.text)
+      (if ((emitVars o (OldEnv.ofEnv old) new).map Cmd.text).isEmpty then 0 else 0), ?_, ?_, rfl, rfl, ?_, ?_⟩
+  · unfold emit; rw [hcm]; exact hrender _ hgood
+  · simp only [List.map_map] at hev
+    exact hev
+  · show (if _ then 0 else 0) = 0
+    split <;> rfl
+  · show [] ++ _ = _
+    simp
+
+/-- with `-n -vv` nothing is hidden: the lines printed are exactly the commands the same request emits without `-n` -/
+theorem C05_noaction_vv_same_commands (o : Opts) (hv : o.verbose2 = true) (old : OldEnv) (new : Env) :
+    emitVars { o with noaction := true } old new = emitVars { o with noaction := false } old new := by
+  have hh : ∀ k, hidden { o with noaction := true } k = hidden { o with noaction := false } k := by
+    intro k; simp [hidden, hv]
+  have hs : setCmd? { o with noaction := true } old = setCmd? { o with noaction := false } old := by
+    funext p; simp only [setCmd?, hh]
+  have hu : ∀ e, unsetCmd? { o with noaction := true } e = unsetCmd? { o with noaction := false } e := by
+    intro e; funext p; simp only [unsetCmd?, hh]
+  simp only [emitVars, emitVarsOn, hs, hu, finalEnv]
+
+/-- Non-vacuity: `setup -n` with a value that needs quoting, a removed variable and a hidden `SETUP_` variable. -/
+example :
+    let old : Env := [(Str.ofString "PATH", Str.ofString "/bin"), (Str.ofString "GONE", Str.ofString "1")]
+    let new : Env := [(Str.ofString "PATH", Str.ofString "/my prod/bin:/bin"), (Str.ofString "SETUP_P", Str.ofString "p 1")]
+    let o : Opts := { noaction := true }
+    emit o (OldEnv.ofEnv old) new [] [] =
+        some [Str.ofString "echo \"export PATH='/my prod/bin:/bin'\"", Str.ofString "echo \"unset GONE\""] ∧
+      (shEvalF old [] (Str.ofString "echo \"export PATH='/my prod/bin:/bin'\";\necho \"unset GONE\"\n")).map
+          (fun r => (r.sh.env, r.out, r.status)) =
+        some (old, [Str.ofString "export PATH='/my prod/bin:/bin'", Str.ofString "unset GONE"], 0) := by
+  decide
+
+/-! ## the csh dialect (text level; spec from the manual, no csh binary) -/
+
+/-- **csh reads back what the emitter wrote, word by word.**  For every value over the alphabet that holds no newline:
+the word the emitter writes after `setenv NAME ` (single-quoted iff it holds a blank or one of `< > | & ; ( )`) is read
+by csh as exactly that value. -/
+theorem C05_csh_word_roundtrip (v : Str) (hv : InAlphabet v) (hnl : ∀ c ∈ v, c ≠ 10) : cshWord (emitVal v) = some v := by
+  rcases emitVal_alpha hv with h | ⟨h, hsafe⟩
+  · rw [h]
+    have hrev : (v ++ [39]).reverse = 39 :: v.reverse := by simp
+    have hall : (v.all fun c => c != 39 && c != 10 && c != 33) = true := by
+      apply List.all_eq_true.mpr
+      intro c hc
+      have h39 := alpha_no_sq hv c hc
+      have h10 := hnl c hc
+      have h33 : c ≠ 33 := by
+        rcases hv c hc with h1 | h1
+        · simp only [isSafe, Str.isAlnum, Str.isAlpha, Str.isUpper, Str.isLower, Str.isDigit, Bool.or_eq_true,
+            Bool.and_eq_true, decide_eq_true_eq, beq_iff_eq] at h1
+          omega
+        · simp only [isShMeta, Bool.or_eq_true, beq_iff_eq] at h1
+          omega
+      simp [h39, h10, h33]
+    simp [cshWord, hrev, hall]
+  · rw [h]
+    cases v with
+    | nil => rfl
+    | cons c r =>
+      have hc : c ≠ 39 := (safe_facts (hsafe c (by simp))).1
+      have hall : ((c :: r).all isSafe) = true := List.all_eq_true.mpr hsafe
+      simp only [cshWord]
+      split
+      · rename_i heq; cases heq
+      · rename_i heq; cases heq; exact absurd rfl hc
+      · simp [hall]
+
+/-- **The whole csh command list** (`setenv` for every changed or new variable, `unsetenv` for every removed one) takes
+the caller's environment to the computed one, as csh reads it — for written values over the alphabet without a
+newline.  (Same command list as for sh: only the rendering differs.) -/
+theorem C05_csh_roundtrip (old new : Env)
+    (hold : ∀ p ∈ old, isIdent p.1 = true) (hnew : ∀ p ∈ new, isIdent p.1 = true)
+    (hdict : (new.map (·.1)).Nodup)
+    (halpha : ∀ p ∈ new, old.get p.1 ≠ some p.2 → InAlphabet p.2 ∧ ∀ c ∈ p.2, c ≠ 10)
+    (hprot : ∀ k, isProtected k = true → old.has k = true → new.has k = true) :
+    ∃ e, cshApplyAll (emitVarsOn { shell := .csh } (OldEnv.ofEnv old) new) old = some e ∧ SameEnv e new := by
+  have hsame : emitVarsOn { shell := .csh } (OldEnv.ofEnv old) new = emitVarsOn {} (OldEnv.ofEnv old) new := by
+    have h1 : setCmd? { shell := .csh } (OldEnv.ofEnv old) = setCmd? {} (OldEnv.ofEnv old) := by
+      funext p; simp [setCmd?, hidden]
+    have h2 : unsetCmd? { shell := .csh } new = unsetCmd? {} new := by
+      funext p; simp [unsetCmd?, hidden]
+    simp only [emitVarsOn, h1, h2]
+  rw [hsame]
+  have hgood : ∀ c ∈ emitVarsOn {} (OldEnv.ofEnv old) new, ∀ e, cshApply e c = some (c.apply e) := by
+    intro c hc e
+    simp only [emitVarsOn, List.mem_append, List.mem_filterMap] at hc
+    rcases hc with ⟨p, hp, hpc⟩ | ⟨p, hp, hpc⟩
+    · simp only [setCmd?] at hpc
+      split at hpc; · cases hpc
+      rename_i hl
+      split at hpc; · cases hpc
+      cases hpc
+      have ha := halpha p hp (by
+        intro hg; apply hl; rw [lookup_ofEnv, hg]; simp)
+      simp [cshApply, hnew p hp, C05_csh_word_roundtrip p.2 ha.1 ha.2, Cmd.apply]
+    · simp only [unsetCmd?] at hpc
+      split at hpc; · cases hpc
+      split at hpc; · cases hpc
+      split at hpc; · cases hpc
+      cases hpc
+      have : p.1 ∈ old.map (·.1) := by
+        have := (tracks_ofEnv old).1
+        rw [← this]; exact List.mem_map.mpr ⟨p, hp, rfl⟩
+      obtain ⟨q, hq, hqk⟩ := List.mem_map.mp this
+      have hid : isIdent p.1 = true := by rw [← hqk]; exact hold q hq
+      simp [cshApply, hid, Cmd.apply]
+  have hfold : ∀ (l : List Cmd) (e : Env), (∀ c ∈ l, ∀ e, cshApply e c = some (c.apply e)) →
+      cshApplyAll l e = some (applyAll l e) := by
+    intro l
+    induction l with
+    | nil => intro e _; rfl
+    | cons c r ih =>
+      intro e h
+      simp only [cshApplyAll, List.foldlM_cons, h c (by simp) e, Option.bind_eq_bind, Option.bind_some, applyAll_cons]
+      exact ih _ (fun d hd => h d (by simp [hd]))
+  exact ⟨_, hfold _ old hgood, emitVars_apply (OldEnv.ofEnv old) old new (tracks_ofEnv old) hdict hprot⟩
+
+/-- **csh cannot take a newline inside a quoted word (witness against the emission, per the manual):** for the value
+`a b<newline>c` the emitter writes the same quoted word as for sh; sh reads it back, csh does not. -/
+theorem C05_csh_newline_witness :
+    let v := Str.ofString "a b\nc"
+    emitVal v = Str.ofString "'a b\nc'" ∧ cshWord (emitVal v) = none ∧
+      shEval [] (Str.ofString "export K=" ++ emitVal v) = some [(Str.ofString "K", v)] := by
+  decide
+
+/-- Non-vacuity: a path with a blank and parentheses, an empty value, a removed variable, through csh's eyes. -/
+example :
+    let old : Env := [(Str.ofString "PATH", Str.ofString "/bin"), (Str.ofString "GONE", Str.ofString "1")]
+    let new : Env := [(Str.ofString "PATH", Str.ofString "/my prod (v1)/bin:/bin"), (Str.ofString "E", [])]
+    emit { shell := .csh } (OldEnv.ofEnv old) new [] [] =
+        some [Str.ofString "setenv PATH '/my prod (v1)/bin:/bin'", Str.ofString "setenv E ", Str.ofString "unsetenv GONE"] ∧
+      cshApplyAll (emitVarsOn { shell := .csh } (OldEnv.ofEnv old) new) old = some new := by
+  decide
+
+/-! ## the command line (`setupcmd.EupsSetup.run` behind `bin/eups_setup`) -/
+
+/-- **What the wrapper can print.**  Whatever the options, the file system facts and the outcome of the inner
+`try`: a run that ends with a non-zero status has printed nothing at all or the single line `false`; a run that ends
+with status 0 has printed nothing (`-h`, `-V`) or exactly the command list `eups.setup` returned, joined by `";\n"`,
+with the newline `print` adds — so the round-trip theorems above are about the text the shell really receives. -/
+theorem C05_cli_outcomes (c : Cli) (w : CliWorld) (inner : Inner) :
+    ((runCli c w inner).status ≠ 0 →
+        (runCli c w inner).stdout = none ∨ (runCli c w inner).stdout = some (sFalse ++ [10])) ∧
+      ((runCli c w inner).status = 0 →
+        (runCli c w inner).stdout = none ∨
+          ∃ cmds, inner = .returned cmds ∧ (runCli c w inner).stdout = some (join cmds ++ [10])) := by
+  have hearly : ∀ r, cliEarly c w = some r →
+      (r.status = 0 ∧ r.stdout = none) ∨ (r.status ≠ 0 ∧ (r.stdout = none ∨ r.stdout = some (sFalse ++ [10]))) := by
+    intro r hr
+    unfold cliEarly at hr
+    repeat' split at hr
+    all_goals first
+      | (cases hr; simp [cliFailed])
+      | cases hr
+  unfold runCli
+  cases he : cliEarly c w with
+  | some r =>
+    rcases hearly r he with ⟨h0, hn⟩ | ⟨h1, hs⟩
+    · exact ⟨fun h => absurd h0 h, fun _ => Or.inl hn⟩
+    · exact ⟨fun _ => hs, fun h => absurd h h1⟩
+  | none =>
+    simp only
+    cases inner with
+    | eupsException => simp [cliInner, cliFailed]
+    | otherException => simp [cliInner, cliFailed]
+    | returned cmds =>
+      simp only [cliInner]
+      split <;> simp
+
+/-- **A failed command line leaves the caller's shell untouched.**  For every option combination and every way the
+request can fail (usage errors, a missing table file, an undeclared version, `--just` with `--max-depth`, an
+exception of any kind): evaluating what was printed changes neither the environment nor the functions, and when
+something was printed at all the caller sees a failure. -/
+theorem C05_cli_failure_untouched (c : Cli) (w : CliWorld) (inner : Inner) (env funcs : Env)
+    (hfail : (runCli c w inner).status ≠ 0) :
+    ∃ r, shEvalF env funcs ((runCli c w inner).stdout.getD []) = some r ∧ r.sh.env = env ∧ r.funcs = funcs ∧
+      ((runCli c w inner).stdout ≠ none → r.status = 1) := by
+  rcases (C05_cli_outcomes c w inner).1 hfail with h | h
+  · refine ⟨startF env funcs, ?_, rfl, rfl, fun hn => absurd h hn⟩
+    simp [h, shEvalF, feedF_nil, finishF, startF, stepF, clean, endWord]
+  · obtain ⟨r, hr, h1, h2, _, h4⟩ := C05_failure_reports_false env funcs true
+    refine ⟨r, ?_, h1, h2, fun _ => h4⟩
+    simpa [h] using hr
+
+/-- Non-vacuity: the exits of `execute`, one each — `-l`; a missing table file; no product; `-r` on a directory
+whose table files do not include the product asked for (the wrapper prints `false`, status 4); `-j -S 2`;
+`-r DIR PRODUCT VERSION` with an undeclared version; an `EupsException`; a successful run. -/
+example :
+    let p : Str := Str.ofString "p0"
+    (runCli { list := true, args := [p] } {} (.returned [])) = ⟨none, 2⟩ ∧
+    (runCli { tablefile := some (Str.ofString "/x/p0.table"), args := [p] } {} (.returned [])) = ⟨none, 3⟩ ∧
+    (runCli {} {} (.returned [])) = ⟨none, 3⟩ ∧
+    (runCli { productDir := some (Str.ofString "/d"), args := [Str.ofString "other"] }
+        { upsIsDir := true, tables := [p] } (.returned [])) = ⟨some (Str.ofString "false\n"), 4⟩ ∧
+    (runCli { nodepend := true, maxDepth := 2, args := [p] } {} (.returned [])) = ⟨none, 3⟩ ∧
+    (runCli { productDir := some (Str.ofString "/d"), args := [p, Str.ofString "9.9"] }
+        { upsIsDir := true, tables := [p] } (.returned [])) = ⟨none, 3⟩ ∧
+    (runCli { args := [p] } {} .eupsException) = ⟨some (Str.ofString "false\n"), 1⟩ ∧
+    (runCli { tablefile := some (Str.ofString "/d/ups/p0.table") } { tablefileExists := true }
+        (.returned [Str.ofString "export A=1", Str.ofString "unset B"])) = ⟨some (Str.ofString "export A=1;\nunset B\n"), 0⟩ ∧
+    stem (basename (Str.ofString "/d/ups/p0.v1.table")) = Str.ofString "p0.v1" := by
   decide
 
 end EupsModel.C05
